@@ -525,9 +525,42 @@ func genFiles(t *tape.Tape) *c13Case {
 			c.Path = append(c.Path, d)
 		}
 	}
+	// the wanted module is usually called mod; a name with a dot (legal in YANG)
+	// makes near misses out of files whose name differs in that position only
+	W := "mod"
+	if wt := t.Sub("wanted-name"); wt.Chance(1, 4) {
+		W = []string{"mo.d", "m.od", "mod.x"}[wt.Intn(3)]
+		c.Want = W
+	}
+	nm := func(s string) string {
+		if strings.HasPrefix(s, "Mod") {
+			return "M" + W[1:] + s[3:]
+		}
+		return strings.Replace(s, "mod", W, 1)
+	}
 	cand := []string{"mod.yang", "mod@2020-01-01.yang", "mod@2021-06-15.yang", "mod@2019-12-31.yang", "mod@2021-06-05.yang"}
 	near := []string{"mod2.yang", "mod@2020-1-1.yang", "mod@2020-01-01.yang.bak", "xmod@2022-01-01.yang", "mod-x@2022-01-01.yang", "mod@2022-13-01x.yang", "mod.yan", "mod@20220101.yang", "Mod.yang", "mod@2023-01-01.YANG", "other.yang"}
 	nearMod := map[string]string{"mod2.yang": "mod2", "xmod@2022-01-01.yang": "xmod", "mod-x@2022-01-01.yang": "mod-x", "other.yang": "other", "Mod.yang": "Mod"}
+	if W != "mod" {
+		for i := range cand {
+			cand[i] = nm(cand[i])
+		}
+		nn := map[string]string{}
+		for i, f := range near {
+			near[i] = nm(f)
+			if m, ok := nearMod[f]; ok {
+				nn[near[i]] = nm(m)
+			}
+		}
+		nearMod = nn
+		for _, r := range []string{"-", "x", ""} {
+			o := strings.Replace(W, ".", r, 1)
+			for _, f := range []string{o + "@2024-01-01.yang", o + ".yang"} {
+				near = append(near, f, f) // (twice: drawn more often)
+				nearMod[f] = o
+			}
+		}
+	}
 	have := map[string]bool{}
 	for _, d := range dirs {
 		if d == "." && !t.Chance(1, 3) {
@@ -538,7 +571,7 @@ func genFiles(t *tape.Tape) *c13Case {
 				p := path.Join(d, f)
 				if !have[p] {
 					have[p] = true
-					c.Files = append(c.Files, fileSpec{Path: p, Module: "mod"})
+					c.Files = append(c.Files, fileSpec{Path: p, Module: W})
 				}
 			}
 		}
@@ -552,17 +585,17 @@ func genFiles(t *tape.Tape) *c13Case {
 			}
 		}
 		// a directory named exactly like the wanted file
-		if t.Chance(1, 8) && !have[path.Join(d, "mod.yang")] {
-			p := path.Join(d, "mod.yang", "inner2.yang")
+		if t.Chance(1, 8) && !have[path.Join(d, W+".yang")] {
+			p := path.Join(d, W+".yang", "inner2.yang")
 			if !have[p] {
 				have[p] = true
-				have[path.Join(d, "mod.yang")] = true // (no file of that name any more)
+				have[path.Join(d, W+".yang")] = true // (no file of that name any more)
 				c.Files = append(c.Files, fileSpec{Path: p, Module: "inner2"})
 			}
 		}
 		// a directory named like a candidate
 		if t.Chance(1, 10) {
-			p := path.Join(d, "mod@2030-01-01.yang", "inner.yang")
+			p := path.Join(d, W+"@2030-01-01.yang", "inner.yang")
 			if !have[p] {
 				have[p] = true
 				c.Files = append(c.Files, fileSpec{Path: p, Module: "inner"})
